@@ -18,6 +18,7 @@ def probes():
     return [{"a": "mark", "mode": "probe"}, {"a": "clearRules"}, {"a": "silent", "mode": "off"}, {"a": "pongOff", "mode": "off"},
             {"a": "ackMode", "mode": "auto"}, {"a": "callAckMode", "mode": "auto"},
             {"a": "sendMeta", "g": "PR", "tag": 90, "ctxMs": PROBE_CTX, "wait": True},
+            {"a": "sendCall", "callID": "probe-call", "tag": 191}, {"a": "recvCall", "g": "PR", "ctxMs": PROBE_CTX, "wait": True},
             {"a": "openDown", "g": "PR", "obj": "DP", "qos": "reliable", "srcs": ["n1"], "ctxMs": PROBE_CTX, "wait": True},
             {"a": "closeDown", "g": "PR", "obj": "DP", "ctxMs": PROBE_CTX, "wait": True},
             {"a": "openUp", "g": "PR", "obj": "UP", "qos": "reliable", "ctxMs": PROBE_CTX, "closeTimeoutMs": 1000, "wait": True},
@@ -162,6 +163,22 @@ def family(quick):
         tail = probes() if name != "closeConn" else [{"a": "quiesce", "ms": 50}]
         scs.append({"id": "C08/lateAck/%s" % name, "kind": "iscp", "conn": dict(conn),
                     "steps": late + [call, {"a": "ackMode", "mode": "auto"}, {"a": "sleep", "ms": 50}] + tail})
+    # (9) a waiting caller's reply call arrives twice (three times) while its ack never comes; the caller leaves by its context - the
+    # connection's dispatching keeps running: an incoming call is received, every probe works
+    import e2escripts as E
+    for n in (2, 3):
+        script = [{"a": "call", "g": "T", "kind": "callWait", "tag": 1}]
+        script += [{"a": "reply", "tag": 1, "cid": 70 + k} for k in range(n)]
+        sc = E.to_scenario("C08/dupReply/%d" % n, script + [{"a": "close"}], conn=dict(conn))
+        # replace the e2e tail (settle / closeConn) by: wait for the caller, an incoming call, ReceiveCall, probes
+        cut = next(k for k, st in enumerate(sc["steps"]) if st["a"] == "settle")
+        for st in sc["steps"]:
+            if st["a"] == "callWait":
+                st["ctxMs"] = CTX
+        sc["steps"] = sc["steps"][:cut] + [{"a": "join", "obj": "T"}, {"a": "sendCall", "callID": "in79", "tag": 179},
+                                          {"a": "recvCall", "g": "T", "ctxMs": 1500, "wait": True}] + probes()
+        sc.pop("wdMs", None)
+        scs.append(sc)
     # (8) user hooks that call back into their own stream (State()): hooks run without any library lock, every call stays bounded
     for k, pol in enumerate(({"k": "none"}, {"k": "immediate"}, {"k": "size", "size": 8})):
         steps = base + [{"a": "openUp", "obj": "U1", "qos": "reliable", "policy": pol, "closeTimeoutMs": 400, "hookReenter": True, "must": True},
